@@ -1249,6 +1249,7 @@ static int main_gram( const std::string& tier, const std::uint64_t seed )
    wd_scratch = &sc;
    const long ps = ::sysconf( _SC_PAGESIZE );
    for( const gram& G : grammars() ) {
+      ::alarm( thorough ? 600 : 100 );  // re-armed per grammar: the budget is for one grammar, not for the part
       tally t;
       rng r( seed * 1000003ULL + static_cast< std::uint64_t >( G.index ) );
       // all inputs over the grammar's alphabet up to the tier's length, all compositions
